@@ -3,7 +3,7 @@
 From Coq Require Import Permutation String.
 From Statham.Model Require Import Str Orderer Tables.
 From Statham.Generated Require Import Gen_orderer_paths.
-From Statham.Proofs Require Import StrFacts OrdererLoop OrdererSound OrdererWalk Agree_orderer.
+From Statham.Proofs Require Import StrFacts OrdererLoop OrdererSound OrdererWalk OrdererDirect Agree_orderer.
 
 (* The emission loop of orderer(): on every dependency map with unique keys that is
    closed (dependencies are keys and are transitive, which get_children's transitive
@@ -84,8 +84,29 @@ Theorem C11_orderer_total : forall paths G roots,
 Proof. exact orderer_total_b. Qed.
 Print Assumptions C11_orderer_total.
 
+(* What a returned order means for the module that is generated from it, with NO closure
+   premise: a class body mentions its direct children only, and every object class that a
+   class of the map reaches in one step of get_children (a keyword position of `paths`,
+   C11_positions) stands before that class in the order.  With unique class names (the
+   routine's documented precondition) `c` is THE class named k. *)
+Theorem C11_orderer_direct : forall paths G roots l,
+  orderer paths G roots = OOk l ->
+  exists ocs ps, get_object_classes paths G roots = Some ocs /\ dep_pairs paths G ocs = Some ps /\
+    Permutation l (keys (dict_of_pairs ps)) /\
+    forall k ds, In (k, ds) (dict_of_pairs ps) ->
+      exists c, In c ocs /\ class_name G c = k /\
+        forall x, In x (kids paths G c) -> is_class G x = true -> before (class_name G x) k l.
+Proof. exact orderer_direct. Qed.
+Print Assumptions C11_orderer_direct.
+
 Local Open Scope string_scope.
 Local Open Scope list_scope.
+Example C11_direct_nonvacuous :
+  let G := [ {| n_class := Some (s_ "A"); n_kids := [(s_ "properties.*.element", [1; 2])] |};
+             {| n_class := Some (s_ "B"); n_kids := [(s_ "items", [2])] |};
+             {| n_class := Some (s_ "C"); n_kids := [] |} ] in
+  orderer Gen_orderer_paths.paths G [0] = OOk [s_ "C"; s_ "B"; s_ "A"].
+Proof. vm_compute. reflexivity. Qed.
 (* a two-node cycle through `items` with a shared leaf: well-formed, and the walk ends *)
 Example C11_walk_nonvacuous :
   let G := [ {| n_class := Some (s_ "A"); n_kids := [(s_ "items", [1; 2])] |};
